@@ -173,3 +173,69 @@ def run_vecindex(c, cfgs, clause, kinds):
             elif sig.startswith("internal") or sig == "add-failed":
                 c.notes.append("%s: %d DAGs of cfg %s differ from the algorithm model in %s (representation only, not a verdict)" % (c.pid, n, cfg, sig))
     return dict(total=total, sample=sample)
+
+
+def binding_selftest(c, res_trace_path=None, profile="c02", n=3):
+    """Demonstrates that the trace specification really constrains the recorded runs: a freshly recorded, accepted
+    scenario is corrupted in one field at a time (Atropos, a delivered event dropped, claimed frame, verdict flipped,
+    block reported one call late) and every corrupted copy must be rejected. Returns dict(corruptions, rejected)."""
+    import copy
+    trace = c.path("selftest_%s.ndjson" % profile)
+    c.vh(["lachrecord", "-profile", profile, "-n", n, "-out", trace], timeout=600, env={"VERIF_SEED": str(c.seed + 977)})
+    recs = vlib.ndjson_read(trace)
+    # scenarios
+    scens, cur = [], None
+    for r in recs:
+        if r["op"] == "reset":
+            cur = [r]
+            scens.append(cur)
+        else:
+            cur.append(r)
+    target = None
+    for s in scens:
+        if s[0].get("byz"):
+            continue
+        idx = [i for i, r in enumerate(s) if r["op"] == "p" and r["blocks"] and len(r["blocks"][0]["evs"]) > 1]
+        if idx and len(s) < 400:
+            target = (s, idx[0])
+            break
+    if not target:
+        return dict(corruptions=0, rejected=0, note="no suitable scenario")
+    s, i = target
+    variants = []
+
+    def variant(name, fn):
+        t = copy.deepcopy(s)
+        fn(t)
+        variants.append((name, t))
+
+    variant("atropos", lambda t: t[i]["blocks"][0].__setitem__("atr", t[i]["blocks"][0]["evs"][-1] if t[i]["blocks"][0]["evs"][-1] != t[i]["blocks"][0]["atr"] else t[i]["blocks"][0]["evs"][0]))
+    variant("delivered-event-dropped", lambda t: t[i]["blocks"][0]["evs"].pop())
+    variant("cheater-added", lambda t: t[i]["blocks"][0]["ch"].append(t[0]["vals"][0][0]) if t[0]["vals"][0][0] not in t[i]["blocks"][0]["ch"] else t[i]["blocks"][0]["ch"].clear())
+    variant("claimed-frame", lambda t: t[i].__setitem__("fr", t[i]["fr"] + 1))
+    variant("verdict-flipped", lambda t: next(r for r in t if r["op"] == "p" and r["ok"] and not r["blocks"]).__setitem__("ok", False))
+
+    def late(t):
+        b = t[i]["blocks"]
+        t[i]["blocks"] = []
+        t[i]["ldf"] -= len(b)
+        j = next(k for k in range(i + 1, len(t)) if t[k]["op"] == "p" and t[k]["ok"])
+        t[j]["blocks"] = b + t[j]["blocks"]
+    try:
+        variant("block-one-call-late", late)
+    except StopIteration:
+        pass
+    # the uncorrupted scenario must be accepted
+    tp = c.path("selftest_ok.ndjson")
+    vlib.ndjson_write(tp, s)
+    ok, _, _ = c.validate_trace("lachesis", "LachesisTrace", tp, env={"STRICT": "1"})
+    if not ok:
+        raise vlib.Infra("selftest: the uncorrupted scenario is rejected")
+    rejected = []
+    for name, t in variants:
+        tp = c.path("selftest_%s.ndjson" % name)
+        vlib.ndjson_write(tp, t)
+        ok, _, _ = c.validate_trace("lachesis", "LachesisTrace", tp, env={"STRICT": "1"})
+        if not ok:
+            rejected.append(name)
+    return dict(corruptions=[v[0] for v in variants], rejected=rejected)
